@@ -241,7 +241,7 @@ func rvalOf(e sx.Sexp) px.Value {
 		for i, k := range a[1:] {
 			vs[i] = rvalOf(k)
 		}
-		return types.NewDeferred(a[0].MustStr(), vs...)
+		return newDeferredBy(a[0].MustStr(), vs)
 	case "dt":
 		if len(a) == 1 {
 			return types.NewDeferredType(a[0].MustStr())
@@ -253,6 +253,31 @@ func rvalOf(e sx.Sexp) px.Value {
 		return types.NewDeferredType(a[0].MustStr(), vs...)
 	}
 	return valOf(e)
+}
+
+// newDeferredBy builds the Deferred by one of its three constructors, chosen by the shape of the term (the model does not
+// care which): types.NewDeferred, the positional constructor of the Deferred type (`Deferred.new(name, arguments)`: the
+// CALLER's array becomes the argument list) and the constructor from an init hash.  A constructor that refuses (the name
+// pattern of the type) falls back to NewDeferred.
+var resCtx px.Context
+
+func newDeferredBy(name string, vs []px.Value) (d px.Value) {
+	route := (len(name) + len(vs)) % 3
+	if resCtx != nil && route != 0 {
+		if err := safely(func() {
+			if route == 1 {
+				d = px.New(resCtx, types.DeferredMetaType, types.WrapString(name), types.WrapValues(vs))
+			} else {
+				d = px.New(resCtx, types.DeferredMetaType, types.WrapHash([]*types.HashEntry{
+					types.WrapHashEntry2(`name`, types.WrapString(name)), types.WrapHashEntry2(`arguments`, types.WrapValues(vs))}))
+			}
+		}); err == nil {
+			if _, ok := d.(types.Deferred); ok {
+				return d
+			}
+		}
+	}
+	return types.NewDeferred(name, vs...)
 }
 
 // rwalk: the canonical content through the public API (Deferred: Name() and Arguments(); a type: its text)
@@ -465,6 +490,7 @@ func execRes(c px.Context, args []sx.Sexp, implOnly bool) core.Result {
 	if !ok {
 		return core.Result{Out: "~", Pred: "n/a", Tags: []string{"res-outside"}}
 	}
+	resCtx = c
 	v := rvalOf(args[0])
 	twin := rvalOf(args[0])
 	var ws []watched
